@@ -92,6 +92,10 @@ def different_value(g, v):
     if isinstance(v, QualifiedName):
         return QualifiedName(v.namespace, v.localpart + "_other")
     if isinstance(v, datetime.datetime):
+        if g.chance(0.4):
+            # the same clock reading under another UTC offset (or none) is another instant
+            tzs = [None, datetime.timezone.utc, datetime.timezone(datetime.timedelta(hours=5))]
+            return v.replace(tzinfo=g.choice([z for z in tzs if z != v.tzinfo]))
         return v + datetime.timedelta(days=1)
     return None
 
@@ -99,7 +103,7 @@ def different_value(g, v):
 def make_case(ctx, g):
     w = World()
     fails = []
-    b = DocBuilder(g, w, malformed=0.08)
+    b = DocBuilder(g, w, malformed=0.08, reclock=0.2)
     d, scopes = b.random_document(n_records=g.rng.randint(1, 7))
     flags = set()
     all_recs = [(c, h) for c in scopes for h in b.recs[c]]
@@ -186,6 +190,8 @@ def make_case(ctx, g):
                  (0.5, Literal("0.5", QualifiedName(Namespace("xsd", XSDU), "double"))),
                  ("text", Literal("text", QualifiedName(Namespace("xsd", XSDU), "string"))),
                  ("plain", Literal("plain")),
+                 ("Cafe\u0301 \u212b", Literal("Cafe\u0301 \u212b", QualifiedName(Namespace("xsd", XSDU), "string"))),
+                 (" padded\t", Literal(" padded\t")),
                  (Identifier("http://x/y"), Literal("http://x/y", QualifiedName(Namespace("xsd", XSDU), "anyURI")))]
         t = g.dt()
         pairs.append((t, Literal(t.isoformat(), QualifiedName(Namespace("xsd", XSDU), "dateTime"))))
